@@ -439,3 +439,61 @@ func BadA5Read(r interceptor.RTPReader, b []byte, in, attr fxAttrs) int {
 	attr.Put(1, n)
 	return n
 }
+
+// ---- A6 -------------------------------------------------------------------------------------------------------
+
+type a6stamper struct {
+	interceptor.NoOp
+	scratch [2]byte
+	ring    [8][2]byte
+	n       uint32
+}
+
+func a6encode(seq uint16) []byte { return []byte{byte(seq >> 8), byte(seq)} }
+
+// GoodA6Fresh attaches a payload allocated during the call (directly, through a helper, from a local array).
+func (s *a6stamper) GoodA6Fresh(w interceptor.RTPWriter) interceptor.RTPWriter {
+	return interceptor.RTPWriterFunc(func(h *rtp.Header, p []byte, a interceptor.Attributes) (int, error) {
+		var local [2]byte
+		local[0] = 1
+		if err := h.SetExtension(1, local[:]); err != nil {
+			return 0, err
+		}
+		if err := h.SetExtension(2, a6encode(7)); err != nil {
+			return 0, err
+		}
+		tcc, err := (&rtp.TransportCCExtension{TransportSequence: 9}).Marshal()
+		if err != nil {
+			return 0, err
+		}
+		if err := h.SetExtension(3, tcc); err != nil {
+			return 0, err
+		}
+		return w.Write(h, p, a)
+	})
+}
+
+// BadA6Captured re-uses one scratch slice per stream for every packet.
+func (s *a6stamper) BadA6Captured(w interceptor.RTPWriter) interceptor.RTPWriter {
+	buf := make([]byte, 2)
+	return interceptor.RTPWriterFunc(func(h *rtp.Header, p []byte, a interceptor.Attributes) (int, error) {
+		buf[0], buf[1] = 0, 1
+		if err := h.SetExtension(1, buf); err != nil {
+			return 0, err
+		}
+		return w.Write(h, p, a)
+	})
+}
+
+// BadA6Ring hands out slots of a ring in the interceptor.
+func (s *a6stamper) BadA6Ring(w interceptor.RTPWriter) interceptor.RTPWriter {
+	return interceptor.RTPWriterFunc(func(h *rtp.Header, p []byte, a interceptor.Attributes) (int, error) {
+		s.n++
+		slot := s.ring[s.n%8][:]
+		slot[0] = byte(s.n)
+		if err := h.SetExtension(1, slot); err != nil {
+			return 0, err
+		}
+		return w.Write(h, p, a)
+	})
+}
